@@ -643,7 +643,12 @@ def populate_clears(A: Analysis, col: Collector, rule: str):
 
 
 def stale_lock_rule(A: Analysis, col: Collector, rule: str):
-    fn = A.func("pydra.engine.submitter.Submitter._check_locks")
+    # the submitter's stale-lock sweep, found by its role (the method of Submitter that unlinks a job's lockfile), not by its name
+    sub_cls = A.cls("pydra.engine.submitter.Submitter")
+    cands = [m for m in sub_cls.methods.values() if any(isinstance(c.func, ast.Attribute) and c.func.attr == "unlink" and isinstance(c.func.value, ast.Attribute) and c.func.value.attr == "lockfile" for c in A.calls(m))]
+    if len(cands) != 1:
+        raise AnalysisError(f"C12: the stale-lock sweep of Submitter was not found by its role ({len(cands)} candidates)")
+    fn = cands[0]
     unl = [c for c in A.calls(fn) if isinstance(c.func, ast.Attribute) and c.func.attr == "unlink"]
     A.anchor("lockfile.unlink in _check_locks", unl)
     for u in unl:
